@@ -605,7 +605,8 @@ fn id_printable(c: &Option<Char4OrRegex>) -> bool {
 }
 
 // ------------------------------------------------------------------------------------------ eac through the CLI
-fn run_eac_cli(expr: &str, real: &[DltMessage]) -> Result<Option<Vec<bool>>, String> {
+/// runs `adlt convert -s <args> file` over the messages written to a file; None = the command line was rejected
+fn run_cli(args: &[String], filter_file: Option<&[u8]>, real: &[DltMessage]) -> Result<Option<Vec<bool>>, String> {
     let bin = std::env::var("VERIF_ADLT_BIN").map_err(|_| "VERIF_ADLT_BIN not set".to_string())?;
     let dir = tempfile::tempdir().map_err(|e| e.to_string())?;
     let p = dir.path().join("u.dlt");
@@ -614,13 +615,17 @@ fn run_eac_cli(expr: &str, real: &[DltMessage]) -> Result<Option<Vec<bool>>, Str
         m.to_write(&mut buf).map_err(|e| e.to_string())?;
     }
     std::fs::write(&p, &buf).map_err(|e| e.to_string())?;
-    let out = std::process::Command::new(&bin)
-        .arg("convert")
-        .arg("-s")
-        .arg(format!("--eac={}", expr))
-        .arg(&p)
-        .output()
-        .map_err(|e| format!("spawn {}: {}", bin, e))?;
+    let mut cmd = std::process::Command::new(&bin);
+    cmd.arg("convert").arg("-s");
+    for a in args {
+        cmd.arg(a);
+    }
+    if let Some(ff) = filter_file {
+        let fp = dir.path().join("filters.txt");
+        std::fs::write(&fp, ff).map_err(|e| e.to_string())?;
+        cmd.arg("-f").arg(&fp);
+    }
+    let out = cmd.arg(&p).output().map_err(|e| format!("spawn {}: {}", bin, e))?;
     if !out.status.success() {
         // clap rejects the value: EacFilter::from_str returned Err
         return Ok(None);
@@ -638,12 +643,34 @@ fn run_eac_cli(expr: &str, real: &[DltMessage]) -> Result<Option<Vec<bool>>, Str
     }
     Ok(Some(sel))
 }
+fn run_eac_cli(expr: &str, real: &[DltMessage]) -> Result<Option<Vec<bool>>, String> {
+    run_cli(&[format!("--eac={}", expr)], None, real)
+}
+
+/// the message as it can be stored in a file: the text becomes a verbose string argument
+fn file_msg(m: &Msg) -> Msg {
+    let mut m = m.clone();
+    if let (Some(t), None) = (&m.text, &m.raw) {
+        let mut p = vec![0x00, 0x82, 0x00, 0x00]; // STRG, UTF-8
+        p.extend_from_slice(&((t.len() + 1) as u16).to_le_bytes());
+        p.extend_from_slice(t.as_bytes());
+        p.push(0);
+        m.raw = Some(p);
+        m.text = None;
+        if let Some(e) = &mut m.ext {
+            e.0 |= 1;
+        }
+    }
+    m
+}
 
 // ------------------------------------------------------------------------------------------ one case
 struct Ctx {
     eng: Engines,
     /// decisions per abstract filter group (for the front-ends-agree clause): group id -> (front-end, decisions)
     groups: HashMap<u64, (String, Vec<bool>)>,
+    /// how many `adlt convert -f` runs are still allowed in this run
+    cli_budget: u64,
 }
 
 fn fail(c: &str, d: String) -> Verdict {
@@ -897,6 +924,35 @@ fn record(sink: &mut Sink, ctx: &mut Ctx, fe: FeIn, a: Option<AFilter>, msgs: Ve
                         }
                     }
                 }
+            }
+        }
+    }
+    // the selection made by `adlt convert -f <file>` with this one positive, enabled filter
+    if let (Some(a), true) = (&a, ctx.cli_budget > 0) {
+        let file: Option<Vec<u8>> = match &fe {
+            FeIn::Dlf(fs, pretty) if fs.len() == 1 => Some(render_dlf_text(fs, *pretty).into_bytes()),
+            FeIn::Conv(b) => Some(b.clone()),
+            _ => None,
+        };
+        if let (Some(file), true, true) = (file, a.kind == 0 && a.enabled && a.lcs.is_none(), !matches!(a.ty, Some(AType::Vmm(_)))) {
+            ctx.cli_budget -= 1;
+            let fmsgs: Vec<Msg> = msgs.iter().map(file_msg).collect();
+            let freal: Vec<DltMessage> = fmsgs.iter().enumerate().map(|(i, m)| real_msg(m, i as u32)).collect();
+            let ftexts: Vec<Option<String>> = freal.iter().map(eff_text).collect();
+            let want: Vec<bool> = fmsgs.iter().zip(ftexts.iter()).map(|(m, t)| aspec(&mut ctx.eng, a, m, t)).collect();
+            tags.push("cli_filter_file".into());
+            match run_cli(&[], Some(&file), &freal) {
+                Ok(Some(sel)) => {
+                    if sel != want {
+                        let i = sel.iter().zip(want.iter()).position(|(x, y)| x != y).unwrap();
+                        set_fail(
+                            fail("cli_selection", format!("adlt convert -f ({}): message {} {:?} text {:?}: selected = {}, specification = {}", fe_name, i, fmsgs[i], ftexts[i], sel[i], want[i])),
+                            &mut verdict,
+                        );
+                    }
+                }
+                Ok(None) => set_fail(fail("cli_selection", "adlt convert -f failed".into()), &mut verdict),
+                Err(e) => set_fail(fail("cli_selection", e), &mut verdict),
             }
         }
     }
@@ -1440,7 +1496,7 @@ fn main() {
     let a = parse_args();
     let mut sink = Sink::new("C11", &a.out);
     sink.shard_size = 60;
-    let mut ctx = Ctx { eng: Engines::default(), groups: HashMap::new() };
+    let mut ctx = Ctx { eng: Engines::default(), groups: HashMap::new(), cli_budget: 0 };
     if let Some(p) = &a.replay {
         let v = read_replay(p);
         replay(&mut sink, &mut ctx, &v["case"]);
@@ -1453,18 +1509,22 @@ fn main() {
         sink.extra_stats.insert("eac_cli_skipped".into(), json!(true));
     }
     let quick = a.tier == "quick";
+    if have_cli {
+        ctx.cli_budget = if quick { 60 } else if a.tier == "search" { 0 } else { 600 };
+    }
     let mut rng = Rng::new(a.seed);
     corpus(&mut sink, &mut ctx);
     let mut group: u64 = 0;
 
     // exhaustive: criteria subsets x negation (x enabled), literal and regex variants, through JSON
-    let variants: u32 = if quick { 1 } else { 4 };
+    let thorough = a.tier == "thorough";
+    let variants: u32 = if thorough { 4 } else { 1 };
     for variant in 0..variants {
-        let v = if quick { (a.seed % 4) as u32 } else { variant };
+        let v = if thorough { variant } else { (a.seed % 4) as u32 };
         for bits in 0..256u32 {
             for negate in [false, true] {
                 for enabled in [true, false] {
-                    if !enabled && quick && bits % 16 != 5 {
+                    if !enabled && !thorough && bits % 16 != 5 {
                         continue;
                     }
                     let af = exhaustive_filter(bits, negate, enabled, v);
@@ -1473,7 +1533,7 @@ fn main() {
                     let sweep = if bits & 0x38 != 0 && (bits + negate as u32) % 4 == 0 { Some(base) } else { None };
                     group += 1;
                     record(&mut sink, &mut ctx, FeIn::Json(kv), Some(af.clone()), msgs.clone(), sweep.clone(), Some(group), &["exhaustive"]);
-                    if !quick || bits % 4 == 1 {
+                    if thorough || bits % 4 == 1 {
                         if let Some(d) = a_to_dlf(&mut rng, &af) {
                             record(&mut sink, &mut ctx, FeIn::Dlf(vec![d], false), Some(af), msgs, sweep, Some(group), &["exhaustive"]);
                         }
